@@ -680,7 +680,7 @@ def gen_jac_case(rng) -> dict[str, Any]:
     one_fmt = rng.pick([None, None, "csc", "csr", "coo", "dense"])
     entries = []
     seen = set()
-    for _ in range(rng.pick([1, 2, 3, 4, 6, 11])):
+    for _ in range(rng.pick([1, 2, 2, 3, 4, 11])):
         ni = rng.randrange(len(nodes))
         while True:
             x = [rat(Fraction(rng.randint(-8, 8), 2)) for _ in range(sizes["x"])]
@@ -824,7 +824,8 @@ def jac_observe(case, with_lines: bool = False):
                     cache.cache_jacobian(inp, jac)
         for ni, node in enumerate(case["nodes"]):
             mine = [e for e in case["entries"] if e["node"] == ni]
-            for label, cache in (("live cache", caches[ni]), ("new HDF5Cache on the same file and node", HDF5Cache(hdf_file_path=p, hdf_node_path=node))):
+            re = HDF5Cache(hdf_file_path=p, hdf_node_path=node)
+            for label, cache in (("live cache", caches[ni]), ("new HDF5Cache on the same file and node", re)):
                 key = "cache-live-differs" if label == "live cache" else "cache-reopen-content"
                 try:
                     if len(cache) != len(mine):
@@ -835,7 +836,7 @@ def jac_observe(case, with_lines: bool = False):
                         msg = _cmp_entry(case, e, cache[_entry_inputs(case, e)], f"{label} (node {node!r}), entry {k + 1} read with cache[inputs]")
                         if msg:
                             break
-                    if not msg and mine:
+                    if not msg and mine and cache is re:
                         got = list(cache.get_all_entries())
                         if len(got) != len(mine):
                             msg = f"{label} (node {node!r}): get_all_entries lists {len(got)} entries instead of {len(mine)}"
@@ -851,7 +852,6 @@ def jac_observe(case, with_lines: bool = False):
             if with_lines and len(lines) < 8:
                 import h5py
 
-                re = HDF5Cache(hdf_file_path=p, hdf_node_path=node)
                 with h5py.File(p, "r") as h5:
                     for k, e in enumerate(mine):
                         for o, sub in e["jac"].items():
